@@ -334,16 +334,16 @@ val validators : (operator * char list) list
 val renderers : (operator * char list) list
 
 type renderfn_id =
-| Fn_literal
 | Fn_basicCompound of operator
-| Fn_basicWrap of operator
 | Fn_equals
+| Fn_like
+| Fn_basicWrap of operator
 | Fn_rang
 | Fn_noop
-| Fn_like
+| Fn_literal
 | Fn_greater
-| Fn_greaterEq
 | Fn_less
+| Fn_greaterEq
 | Fn_lessEq
 | Fn_inFn
 | Fn_list
